@@ -1118,6 +1118,142 @@ fn cmd_spaces(args: &[String]) {
 }
 
 // ------------------------------------------------------------------------------------------------
+// characters that decompose: every mapped non-mark character keeps its cmap glyph and hmtx advance also when OTHER
+// characters of the run are replaced by their canonical decomposition (the font lacks them)
+
+/// `c16 singletons --seed S --n N --per K`: fonts without layout tables that map Latin / Greek letters and a few marks
+/// but not the Kelvin / Ohm / Angstrom signs, some precomposed letters and a CJK compatibility ideograph; texts mix
+/// those with plain letters and base + mark clusters.  Judged per NON-MARK glyph: the glyph of the character (or of
+/// the single character it decomposes to), its hmtx advance, zero offsets (horizontal) / the standard origin shift.
+fn cmd_singletons(args: &[String]) {
+    let seed = arg_u64(args, "--seed", 1);
+    let n = arg_u64(args, "--n", 50);
+    let per = arg_u64(args, "--per", 8);
+    let mut rng = Rng::new(seed ^ 0x51E6);
+    // (character, what a font lacking it shows: the characters of its full canonical decomposition)
+    const DEC: &[(u32, &[u32])] = &[(0x212A, &[0x4B]), (0x2126, &[0x3A9]), (0x212B, &[0x41, 0x30A]), (0xF900, &[0x8C48]), (0xE9, &[0x65, 0x301]), (0x1E0D, &[0x64, 0x323]), (0x1EBF, &[0x65, 0x302, 0x301])];
+    const PLAIN: &[u32] = &[0x4B, 0x3A9, 0x41, 0x8C48, 0x65, 0x64, 0x61, 0x62, 0x63];
+    const MARKS_: &[u32] = &[0x301, 0x302, 0x30A, 0x323];
+    let (mut shapes, mut glyphs, mut vertical, mut nontrivial, mut viol) = (0u64, 0u64, 0u64, 0u64, 0u64);
+    for fi in 0..n {
+        let mut cmap: Vec<(u32, u16)> = Vec::new();
+        let mut next = 1u16;
+        for c in PLAIN.iter().chain(MARKS_.iter()) {
+            cmap.push((*c, next));
+            next += 1;
+        }
+        // some fonts map some of the decomposable characters themselves
+        let mut own: Vec<u32> = Vec::new();
+        for (c, _) in DEC {
+            if rng.chance(1, 5) {
+                cmap.push((*c, next));
+                own.push(*c);
+                next += 1;
+            }
+        }
+        cmap.sort();
+        let mut spec = FontSpec::basic(next);
+        spec.cmap = cmap.clone();
+        spec.hadv = (0..next).map(|g| 300 + 17 * g).collect();
+        spec.ascender = 800;
+        spec.descender = -200;
+        let bytes = build(&spec);
+        let Some(face) = Face::from_slice(&bytes, 0) else {
+            println!("anomaly singletons-font {} rejected", fi);
+            continue;
+        };
+        let gid_of = |c: u32| -> u16 { cmap.iter().find(|e| e.0 == c).map(|e| e.1).unwrap_or(0) };
+        let hx = hex(&bytes);
+        for _ in 0..per {
+            let mut base = Req::default();
+            let len = rng.range(2, 8);
+            let mut cl = 0u32;
+            for _ in 0..len {
+                match rng.below(6) {
+                    0 | 1 => base.text.push((rng.pick(DEC).0, cl)),
+                    2 => {
+                        base.text.push((*rng.pick(&[0x65u32, 0x61, 0x64]), cl));
+                        cl += 1;
+                        base.text.push((*rng.pick(MARKS_), cl));
+                    }
+                    _ => base.text.push((*rng.pick(PLAIN), cl)),
+                }
+                cl += 1;
+            }
+            base.level = rng.below(3) as u8;
+            base.script = Some("Latn".to_string());
+            for d in DIRS {
+                let mut req = base.clone();
+                req.dir = d;
+                let eff = effective_dir(&req);
+                let vert = matches!(eff, Direction::TopToBottom | Direction::BottomToTop);
+                let back = matches!(eff, Direction::RightToLeft | Direction::BottomToTop);
+                let r2 = req.clone();
+                let Ok(out) = catch(std::panic::AssertUnwindSafe(|| shape_req(&face, &r2))) else { continue };
+                shapes += 1;
+                glyphs += out.len() as u64;
+                if vert {
+                    vertical += 1;
+                }
+                // expected NON-MARK glyphs in logical order: a character the font maps -> its glyph; otherwise the
+                // non-mark characters of its decomposition (a composite the font has is also fine: recomposition)
+                let is_mark = |c: u32| MARKS_.contains(&c);
+                let mut want: Vec<Vec<u16>> = Vec::new(); // alternatives per position
+                let mut replaced = false;
+                for (c, _) in &req.text {
+                    if is_mark(*c) {
+                        continue;
+                    }
+                    if gid_of(*c) != 0 {
+                        // a base followed by a mark may be recomposed into a precomposed letter the font maps
+                        let mut alts = vec![gid_of(*c)];
+                        for (p, dec) in DEC {
+                            if dec[0] == *c && own.contains(p) {
+                                alts.push(gid_of(*p));
+                            }
+                        }
+                        want.push(alts);
+                    } else if let Some((_, dec)) = DEC.iter().find(|e| e.0 == *c) {
+                        replaced = true;
+                        want.push(vec![gid_of(dec[0])]);
+                    } else {
+                        want.push(vec![0]);
+                    }
+                }
+                let mark_gids: Vec<u32> = MARKS_.iter().map(|m| gid_of(*m) as u32).collect();
+                let mut got: Vec<&G> = out.iter().filter(|g| !mark_gids.contains(&g.gid)).collect();
+                if back {
+                    got.reverse();
+                }
+                let mut bad: Option<String> = None;
+                if got.len() != want.len() {
+                    bad = Some(format!("{};non-mark;glyphs;for;{};non-mark;characters", got.len(), want.len()));
+                } else {
+                    for (g, alts) in got.iter().zip(want.iter()) {
+                        let adv = spec.hadv.get(g.gid as usize).copied().unwrap_or(0) as i32;
+                        let pos_ok = if vert { (g.xa, g.ya, g.xo, g.yo) == (0, -1000, -(adv / 2), -800) } else { (g.xa, g.ya, g.xo, g.yo) == (adv, 0, 0, 0) };
+                        if !alts.contains(&(g.gid as u16)) || !pos_ok {
+                            bad = Some(format!("got glyph {} adv {},{} off {},{} want glyph {:?} with its own metrics", g.gid, g.xa, g.ya, g.xo, g.yo, alts).replace(' ', ";"));
+                            break;
+                        }
+                    }
+                }
+                if replaced {
+                    nontrivial += 1;
+                }
+                if let Some(b) = bad {
+                    viol += 1;
+                    if viol <= 5 {
+                        println!("viol fonthex={} index=0 var=- req={} dir={} what=decomposing-run-metrics:{} nf=- out={}", hx, fmt_req(&req).replace(' ', "~"), dir_name(Some(eff)), b, fmt_out(&out));
+                    }
+                }
+            }
+        }
+    }
+    println!("singletons-summary fonts={} shapes={} glyphs={} vertical={} nontrivial={} viol={}", n, shapes, glyphs, vertical, nontrivial, viol);
+}
+
+// ------------------------------------------------------------------------------------------------
 // single request (replays) and the witness of the known finding
 
 fn cmd_one(args: &[String]) {
@@ -1180,6 +1316,7 @@ pub fn run(args: &[String]) {
         Some("gen") => cmd_gen(rest),
         Some("glyf") => cmd_glyf(rest),
         Some("spaces") => cmd_spaces(rest),
+        Some("singletons") => cmd_singletons(rest),
         Some("one") => cmd_one(rest),
         Some("witness") => cmd_witness(rest),
         _ => {
